@@ -244,12 +244,77 @@ func (v *Verifier) structural(cfg PropConfig, sc StructuralCheck) []StructResult
 		sort.Strings(bad)
 		return []StructResult{{Name: name, Kind: "frame", Text: "no function in scope uses " + strings.Join(a.Prefixes, ", ") + map[bool]string{true: " or starts a goroutine", false: ""}[a.Goroutines],
 			Detail: fmt.Sprintf("%d functions scanned; %s", n, strings.Join(uniq(bad), "; ")), OK: len(bad) == 0 && n > 0}}
+	case "call_arg_values":
+		// every call of the function (static, or through an interface it implements) passes, as argument i, one
+		// of the allowed constants
+		var a struct {
+			Callee  string   `json:"callee"`
+			Arg     int      `json:"arg"` // index among the call's arguments (receiver = 0 for methods)
+			Allowed []string `json:"allowed"`
+		}
+		json.Unmarshal(sc.Args, &a)
+		callee := v.funcsByKey[modulePath+"/"+a.Callee]
+		if callee == nil {
+			engineErr("structural %s: function %s not found in /repo (renamed or removed?)", sc.Name, a.Callee)
+		}
+		var bad []string
+		n := 0
+		for _, fn := range v.moduleFunctions(false) {
+			if fn.Synthetic != "" {
+				continue
+			}
+			for _, b := range fn.Blocks {
+				for _, in := range b.Instrs {
+					ci, ok := in.(ssa.CallInstruction)
+					if !ok {
+						continue
+					}
+					cc := ci.Common()
+					var args []ssa.Value
+					switch {
+					case cc.StaticCallee() == callee:
+						args = cc.Args
+					case cc.IsInvoke() && callee.Signature.Recv() != nil && cc.Method.Name() == callee.Name():
+						if it, ok := cc.Value.Type().Underlying().(*types.Interface); ok && types.Implements(callee.Signature.Recv().Type(), it) {
+							args = append([]ssa.Value{cc.Value}, cc.Args...)
+						}
+					}
+					if args == nil || a.Arg >= len(args) {
+						continue
+					}
+					n++
+					c, isC := args[a.Arg].(*ssa.Const)
+					val := ""
+					if isC && c.Value != nil {
+						val = strings.Trim(c.Value.ExactString(), "\"")
+					}
+					okV := false
+					for _, al := range a.Allowed {
+						if isC && val == al {
+							okV = true
+						}
+					}
+					if !okV {
+						what := "a non-constant value"
+						if isC {
+							what = fmt.Sprintf("%q", val)
+						}
+						bad = append(bad, fmt.Sprintf("%s passes %s", shortKey(fn), what))
+					}
+				}
+			}
+		}
+		sort.Strings(bad)
+		return []StructResult{{Name: name, Kind: "frame", Text: fmt.Sprintf("every call of %s passes one of %v as argument %d", a.Callee, a.Allowed, a.Arg),
+			Detail: fmt.Sprintf("%d call sites; %s", n, strings.Join(uniq(bad), "; ")), OK: len(bad) == 0 && n > 0}}
 	case "typestate":
 		return v.typestate(cfg, sc)
 	case "maporder":
 		return v.mapOrder(cfg, sc)
 	case "result_coupling":
 		return v.resultCoupling(cfg, sc)
+	case "step_run_pairing":
+		return v.stepRunPairing(cfg, sc)
 	case "callers_subset":
 		var a struct {
 			Callee  string   `json:"callee"`
